@@ -6,7 +6,7 @@ model; secondary observation: the AST of emmet.markup_abbreviation()."""
 import random
 import re
 
-from .. import core, outparse, probes, ref_tree
+from .. import core, hostile, outparse, probes, ref_tree
 
 ID = 'C01'
 RULE = ('cases = (operator skeleton, decoration variant, name filling, config); EVERY grammatical skeleton over E > + ^ ^^ ^^^ ( ) with <= N elements and '
@@ -115,7 +115,7 @@ class Mon:
         import emmet
         from emmet.config import Config
         self.ctx = ctx
-        self.expand = emmet.expand
+        self.expand = hostile.wrap(emmet.expand, ctx)
         self.markup = emmet.markup_abbreviation
         self.Config = Config
         self.k = 0
